@@ -752,6 +752,7 @@ func runC11(c *run.Ctx, s *kit.Summary) {
 		"3% with zero latencies; arrival orders random / sorted / reverse-sorted; per set ~130 quantile arguments (Close's four, the HDR ladder, 0, 1, segment borders ± 1 ulp, tails, out of range, NaN); " +
 		"compression pass: on vegeta's own estimator the Adds that trigger process (all for n ≤ 2500, else the first two, 2% and the last), one plain Add and the process() at Close; plus stand-alone digests with compression 1..20 (tiny buffers, incl. the len(processed) > maxProcessed trigger, weights 1..4, NaN samples) with EVERY Add checked; " +
 		"histories: 30% with 1..3 intermediate Close calls / HDR reports without Close, 20% with a second Close; 30% with failed requests (slowest tenth code 0 + error, other codes mixed); 8% also through `vegeta report` (json, text, hdrplot; gob/JSON/CSV input; a third with -every); oracle on fields, JSON, text, HDR rows and the command's outputs; " +
+		"call sequences: 300 / 5000 random histories of ≤ 40 Add / Close / Quantile / HDR-report calls (queries before the first Add, double Close, timestamps increasing / all equal / decreasing / random) compared call by call with Model/LatencySeq; " +
 		"non-trivial = distinct data set with ≥2 samples and ≥2 distinct values"
 	k := &checker{c: c, s: s, r: r, worst: map[string]float64{}, mc: newMergeChecker(), seenRank: map[string]bool{},
 		qst: &kit.Stream{Name: "c11.quantile"}, cst: &kit.Stream{Name: "c11.cum"}, clst: &kit.Stream{Name: "c11.close"}}
@@ -783,6 +784,8 @@ func runC11(c *run.Ctx, s *kit.Summary) {
 		directDigest(r, s, k.mc, "d")
 		k.mc.flush(c.Driver, s, false)
 	}
+	// call sequences (Add / Close / Quantile / HDR report in any order) against Model/LatencySeq.lean
+	seqStream(c, r, s, c.N(300, 5000))
 	k.flush(true)
 	worst := map[string]interface{}{}
 	for d, w := range k.worst {
